@@ -441,46 +441,72 @@ func c12Sort(c *core.Ctx, r *core.Reporter) {
 		r.Check(len(miss) == 0, tn, less.Pos(), "Swap exchanges every slice that Less reads",
 			tn+".Less reads "+core.Join(miss)+" but Swap does not exchange it: sort.Sort compares stale keys and the result is not ordered (and depends on the input order)")
 	}
-	// suggestionListResult.Less is total: compares Options when distances tie
-	p, less := c.FindDecl("", "suggestionListResult.Less")
+	// The order of suggestions is total: by distance, ties broken on the option itself. The ordering function is the Less
+	// method of the slice pair sorted with sort.Sort, or the less function handed to sort.Slice in suggestionList.
+	p := c.Pkg("")
+	var less ast.Node
+	if _, fd := c.FindDecl("", "suggestionListResult.Less"); fd != nil && fd.Name.Name == "Less" {
+		less = fd.Body
+	} else if _, sl := c.FindDecl("", "suggestionList"); sl != nil {
+		ast.Inspect(sl.Body, func(x ast.Node) bool {
+			call, ok := x.(*ast.CallExpr)
+			if !ok || len(call.Args) != 2 {
+				return true
+			}
+			if f := core.CalleeObj(p.TypesInfo, call); f != nil && f.Pkg() != nil && f.Pkg().Path() == "sort" && (f.Name() == "Slice" || f.Name() == "SliceStable") {
+				if fl, ok := call.Args[1].(*ast.FuncLit); ok {
+					less = fl.Body
+				}
+			}
+			return true
+		})
+	}
 	if less == nil {
-		r.Unknown("suggestionListResult.Less", token.NoPos, "not found")
+		r.Unknown("suggestionListResult.Less", token.NoPos, "the ordering function of suggestionList (Less method or sort.Slice less function) not found")
 		return
 	}
-	reads := core.FieldsRead(p.TypesInfo, []ast.Node{less})["graphql.suggestionListResult"]
-	r.Check(reads["Distances"] && reads["Options"], "suggestionListResult.Less/total", less.Pos(),
-		"orders by distance, then by the option itself (total order on distinct options)",
-		"suggestionListResult.Less orders by distance only: options at equal distance keep the order in which they were collected from a map, so did-you-mean messages change from run to run")
-	// the tie-break compares the options themselves: comparing a function of them (lower-cased, trimmed, their length)
-	// leaves distinct options that the function maps to one value unordered, i.e. in map-iteration order
+	basicKind := func(e ast.Expr) types.BasicInfo {
+		if b, ok := p.TypesInfo.TypeOf(e).Underlying().(*types.Basic); ok {
+			return b.Info()
+		}
+		return 0
+	}
+	byDistance, byOption := false, false
 	var through string
 	var tpos token.Pos
-	ast.Inspect(less.Body, func(x ast.Node) bool {
+	ast.Inspect(less, func(x ast.Node) bool {
 		be, ok := x.(*ast.BinaryExpr)
-		if !ok || (be.Op != token.LSS && be.Op != token.GTR && be.Op != token.LEQ && be.Op != token.GEQ) {
+		if !ok {
 			return true
 		}
-		for _, side := range []ast.Expr{be.X, be.Y} {
-			call, isCall := ast.Unparen(side).(*ast.CallExpr)
-			if !isCall {
-				continue
-			}
-			mentions := false
-			ast.Inspect(call, func(y ast.Node) bool {
-				if se, ok := y.(*ast.SelectorExpr); ok && se.Sel.Name == "Options" {
-					mentions = true
+		switch be.Op {
+		case token.LSS, token.GTR, token.LEQ, token.GEQ, token.NEQ, token.EQL:
+		default:
+			return true
+		}
+		if basicKind(be.X)&types.IsNumeric != 0 && basicKind(be.Y)&types.IsNumeric != 0 {
+			byDistance = true
+		}
+		if basicKind(be.X)&types.IsString != 0 && basicKind(be.Y)&types.IsString != 0 && (be.Op == token.LSS || be.Op == token.GTR || be.Op == token.LEQ || be.Op == token.GEQ) {
+			byOption = true
+			// the tie-break compares the options themselves: comparing a function of them (lower-cased, trimmed) leaves
+			// distinct options that the function maps to one value unordered, i.e. in map-iteration order
+			for _, side := range []ast.Expr{be.X, be.Y} {
+				if call, isCall := ast.Unparen(side).(*ast.CallExpr); isCall {
+					if f := core.CalleeObj(p.TypesInfo, call); f != nil && through == "" {
+						through = f.Pkg().Name() + "." + core.N(f)
+						tpos = be.Pos()
+					}
 				}
-				return true
-			})
-			if f := core.CalleeObj(p.TypesInfo, call); mentions && f != nil && through == "" {
-				through = f.Pkg().Name() + "." + core.N(f)
-				tpos = be.Pos()
 			}
 		}
 		return true
 	})
+	r.Check(byDistance && byOption, "suggestionListResult.Less/total", less.Pos(),
+		"orders by distance, then by the option itself (total order on distinct options)",
+		"suggestions are ordered by distance only: options at equal distance keep the order in which they were collected from a map, so did-you-mean messages change from run to run")
 	if through != "" {
-		r.Bad("suggestionListResult.Less/tie-break-on-option", tpos, "the tie-break of suggestionListResult.Less compares %s(option) instead of the options: two distinct options with the same image (names that differ only in case, say) compare equal both ways, sort.Sort leaves them in the order they were collected from a map, and the did-you-mean text changes from run to run", through)
+		r.Bad("suggestionListResult.Less/tie-break-on-option", tpos, "the tie-break of the suggestion order compares %s(option) instead of the options: two distinct options with the same image (names that differ only in case, say) compare equal both ways, the sort leaves them in the order they were collected from a map, and the did-you-mean text changes from run to run", through)
 	} else {
 		r.OK("suggestionListResult.Less/tie-break-on-option", less.Pos(), "ties are broken on the option strings themselves")
 	}
